@@ -8,7 +8,7 @@ VARIABLES l, obs
 tvars == <<vars, l, obs>>
 E == TraceLog[l]
 NoObs == [run |-> [n \in Names |-> None], dupl |-> FALSE, db |-> {}, adv |-> {}, port |-> {}, agents |-> {}, lsts |-> {}, eps |-> {}, exc2 |-> {},
-          nconn |-> 0, ok |-> TRUE, done |-> TRUE]
+          nconn |-> 0, ok |-> TRUE, done |-> TRUE, cfgsame |-> TRUE]
 TraceInit == Init /\ l = 1 /\ obs = NoObs
 IsEvent(e) == l <= Len(TraceLog) /\ E.ev = e /\ l' = l + 1
 Reset == /\ IsEvent("Reset")
@@ -19,7 +19,7 @@ Reset == /\ IsEvent("Reset")
 
 Seen == obs' = [run |-> [n \in Names |-> E.st.run[n]], dupl |-> E.st.dupl, db |-> ToSet(E.st.db), adv |-> ToSet(E.st.adv), port |-> ToSet(E.st.port),
                 agents |-> ToSet(E.st.agents), lsts |-> ToSet(E.st.lsts), eps |-> ToSet(E.st.eps), exc2 |-> ToSet(E.st.exc2),
-                nconn |-> E.st.nconn, ok |-> E.res.ok, done |-> E.res.done]
+                nconn |-> E.st.nconn, ok |-> E.res.ok, done |-> E.res.done, cfgsame |-> E.res.cfgsame]
 What(b) == IF b \in {"agent:" \o x : x \in Items} THEN "agent" ELSE IF b \in {"listener:" \o x : x \in Items} THEN "listener" ELSE "exc2"
 Item(b) == CHOOSE x \in Items : b \in {"agent:" \o x, "listener:" \o x, "exc2:" \o x}
 
@@ -52,8 +52,9 @@ MonOwnerScopedCleanup ==   \* registered = registered by connections that are st
     /\ obs.agents = Owned(sAgent) /\ obs.lsts = Owned(sLst) /\ obs.exc2 = Owned(sExc2)
     /\ obs.eps = {x \o "-ep" : x \in Owned(sExc2)} \cup {n \o "-ep" : n \in {m \in Names : obs.run[m] = "ext"}}
 MonKeepsRunning == obs.done
-(* C10 / C16: a restart loses no listener - not even one that could not bind while the teamserver started *)
-MonListenersSurvive == last.op = "Restart" => obs.db = db /\ {n \in Names : obs.run[n] \in Builtin} = {n \in Names : run[n] \in Builtin}
+(* C10 / C16: a restart loses no listener - not even one that could not bind while the teamserver started - and nothing of its
+   configuration *)
+MonListenersSurvive == last.op = "Restart" => obs.cfgsame /\ obs.db = db /\ {n \in Names : obs.run[n] \in Builtin} = {n \in Names : run[n] \in Builtin}
 (* ---- the service half of C06: nothing is dispatched for a connection that did not present the password ---- *)
 MonSvcAuth == obs.nconn = Cardinality(conn)
 =============================================================================
